@@ -68,6 +68,21 @@ def gen(seed, tier):
                     segs.append(seg(0, [g.f_df17(icao, me)]))
                 cases.append(H("C05-e%d" % n, o, segs))
                 n += 1
+    # history: surface position frames (TC 5-8) of either parity before and between the airborne ones -- the altitude of an
+    # airborne frame is that frame's, whatever the CPR slots still hold
+    for rep in range(6 if tier == "quick" else 60):
+        icao = r.choice(ICAOS)
+        o = {"U": 1} if rep % 2 else {}
+        segs = []
+        for _ in range(r.randint(4, 9)):
+            if r.random() < 0.45:
+                segs.append(seg(0, [g.f_df17(icao, g.me_surfpos(odd=r.randint(0, 1)))]))
+            else:
+                c = r.choice([0x0B9, 0xC38, r.getrandbits(12) | 0x10])
+                me = me_airborne_pos(r.randint(9, 18), c, r.randint(0, 1), r.getrandbits(17) | 1, r.getrandbits(17) | 1, r.randint(0, 3), r.randint(0, 1), r.randint(0, 1))
+                segs.append(seg(0, [g.f_df17(icao, me)]))
+        cases.append(H("C05-s%d" % n, o, segs))
+        n += 1
     # "any other payload bits": the other fields of the frame at their extremes -- CPR fields all zero / all ones, both
     # parities, time bit, surveillance status -- for a spread of altitude codes, as first frame and as update
     special = [(0, 0), (0x1FFFF, 0x1FFFF), (0, 0x1FFFF), (0x1FFFF, 0), (1, 1), (0, 1), (1, 0)]
